@@ -106,7 +106,7 @@ package store
 //
 //@ func (*Store) Query
 //@   requires [built] s != nil && s.fsmTarget != nil && s.reqMarshaller != nil
-//@   assigns *, chanClosed
+//@   assigns *, chanClosed, bufLen
 //@   ghost var lv0 int = qr.Level
 //@   ghost var pragmaOK bool = false
 //@   ghost var voter bool = false
@@ -149,6 +149,7 @@ package store
 // ---- C29: the flag and bytes written to the log are the ones the marshaler returned ------------
 //@ func (*Store) tryCompress
 //@   requires [built] s != nil && s.reqMarshaller != nil
+//@   assigns *, bufLen
 //@   ghost var mb slice = nilslice
 //@   ghost var mc bool = false
 //@   ghost var me error = nil
@@ -161,6 +162,7 @@ package store
 //
 //@ func (*Store) execute
 //@   requires [built] s != nil && s.reqMarshaller != nil
+//@   assigns *, bufLen
 //@   ghost var cb slice = nilslice
 //@   ghost var cc bool = false
 //@   ghost update @s.tryCompress: cb = result0
@@ -229,7 +231,7 @@ package store
 // the write throttle was consulted.
 //@ func (*Store) Execute
 //@   requires [built] s != nil && s.reqMarshaller != nil && s.throttler != nil
-//@   assigns *, chanClosed, timerRunning, timerDur
+//@   assigns *, chanClosed, timerRunning, timerDur, bufLen
 //@   ghost var pragmaOK bool = false
 //@   ghost var leaderObs bool = false
 //@   ghost var readyObs bool = false
@@ -252,7 +254,7 @@ package store
 // read-only pool under the level's rule; otherwise through the log, on a leader only.
 //@ func (*Store) Request
 //@   requires [built] s != nil && eqr != nil && s.fsmTarget != nil && s.reqMarshaller != nil && s.throttler != nil
-//@   assigns *, chanClosed, timerRunning, timerDur
+//@   assigns *, chanClosed, timerRunning, timerDur, bufLen
 //@   ghost var pragmaOK bool = false
 //@   ghost var readyObs bool = false
 //@   ghost var delayed bool = false
